@@ -1104,3 +1104,298 @@ Section Agree.
     match goal with |- (if ?b then _ else _) <> _ => destruct b end; [discriminate|]. destruct (_ >? _); discriminate.
   Qed.
 End Agree.
+(* ---------- exactness of the float expression, from the specification of the primitive floats ---------- *)
+Definition sz (z : Z) : Z := Z.log2 z + 1.
+
+Lemma digits2_size : forall p, digits2_pos p = Pos.size p.
+Proof. induction p as [p IH|p IH|]; cbn [digits2_pos Pos.size]; rewrite ?IH; reflexivity. Qed.
+
+Lemma Zdigits2_sz : forall p, Zdigits2 (Zpos p) = sz (Zpos p).
+Proof.
+  intros p. unfold sz. cbn [Zdigits2]. rewrite digits2_size.
+  destruct p as [q|q|]; cbn [Z.log2 Pos.size]; rewrite ?Pos2Z.inj_succ; lia.
+Qed.
+
+Lemma sz_bounds : forall z, 0 < z -> 2 ^ (sz z - 1) <= z < 2 ^ sz z.
+Proof.
+  intros z H. unfold sz. replace (Z.log2 z + 1 - 1) with (Z.log2 z) by lia.
+  pose proof (Z.log2_spec z H). replace (Z.log2 z + 1) with (Z.succ (Z.log2 z)) by lia. assumption.
+Qed.
+
+Lemma sz_mul_pow2 : forall z n, 0 < z -> 0 <= n -> sz (z * 2 ^ n) = sz z + n.
+Proof. intros z n H Hn. unfold sz. rewrite Z.log2_mul_pow2 by assumption. lia. Qed.
+
+Lemma sz_pos : forall z, 0 < z -> 1 <= sz z.
+Proof. intros z H. unfold sz. pose proof (Z.log2_nonneg z). lia. Qed.
+
+Lemma sz_le : forall z k, 0 < z -> z < 2 ^ k -> sz z <= k.
+Proof.
+  intros z k H Hk. unfold sz.
+  assert (0 <= k). { destruct (Z.lt_ge_cases k 0) as [N|N]; [|assumption]. rewrite Z.pow_neg_r in Hk by assumption. lia. }
+  assert (Z.log2 z < k); [|lia]. apply Z.log2_lt_pow2; assumption.
+Qed.
+
+Lemma sz_mul_ge : forall a b, 0 < a -> 0 < b -> sz a + sz b - 1 <= sz (a * b).
+Proof. intros a b Ha Hb. unfold sz. pose proof (Z.log2_mul_below a b Ha Hb). lia. Qed.
+
+(* ---- shifting out zero bits is exact ---- *)
+Definition rec0 (m : Z) : shr_record := {| shr_m := m; shr_r := false; shr_s := false |}.
+
+Lemma nat_iter_add : forall (A : Type) (f : A -> A) (a b : nat) (x : A),
+  Nat.iter (a + b) f x = Nat.iter a f (Nat.iter b f x).
+Proof. intros A f a b x. induction a as [|a IH]; simpl; [reflexivity|]. f_equal. exact IH. Qed.
+
+Lemma nat_iter_succ_r : forall (A : Type) (f : A -> A) (n : nat) (x : A),
+  Nat.iter (S n) f x = Nat.iter n f (f x).
+Proof. intros A f n x. induction n as [|n IH]; [reflexivity|]. simpl in *. f_equal. exact IH. Qed.
+
+Lemma nat_iter_S : forall (A : Type) (f : A -> A) (n : nat) (x : A), Nat.iter (S n) f x = f (Nat.iter n f x).
+Proof. reflexivity. Qed.
+
+Lemma iter_pos_nat : forall (A : Type) (f : A -> A) (n : positive) (x : A),
+  iter_pos f n x = Nat.iter (Pos.to_nat n) f x.
+Proof.
+  intros A f. induction n as [n IH|n IH|]; intros x; cbn [iter_pos].
+  - rewrite !IH. rewrite Pos2Nat.inj_xI. replace (S (2 * Pos.to_nat n)) with (S (Pos.to_nat n + Pos.to_nat n)) by lia.
+    rewrite nat_iter_succ_r, nat_iter_add. reflexivity.
+  - rewrite !IH. rewrite Pos2Nat.inj_xO. replace (2 * Pos.to_nat n)%nat with (Pos.to_nat n + Pos.to_nat n)%nat by lia.
+    rewrite nat_iter_add. reflexivity.
+  - reflexivity.
+Qed.
+
+Lemma shr_1_double : forall m, 0 <= m -> shr_1 (rec0 (2 * m)) = rec0 m.
+Proof. intros [|p|p] H; reflexivity. Qed.
+
+Lemma iter_shr_exact : forall k m, 0 <= m -> Nat.iter k shr_1 (rec0 (m * 2 ^ Z.of_nat k)) = rec0 m.
+Proof.
+  induction k as [|k IH]; intros m H.
+  - change (2 ^ Z.of_nat 0) with 1. rewrite Z.mul_1_r. reflexivity.
+  - rewrite nat_iter_S. rewrite Nat2Z.inj_succ, Z.pow_succ_r by lia.
+    replace (m * (2 * 2 ^ Z.of_nat k)) with ((2 * m) * 2 ^ Z.of_nat k) by lia.
+    rewrite IH by lia. apply shr_1_double. assumption.
+Qed.
+
+Lemma shr_exact : forall m e n, 0 <= m -> 0 <= n -> shr (rec0 (m * 2 ^ n)) e n = (rec0 m, e + n).
+Proof.
+  intros m e n Hm Hn. unfold shr. destruct n as [|p|p]; [| |lia].
+  - change (2 ^ 0) with 1. rewrite Z.mul_1_r, Z.add_0_r. reflexivity.
+  - rewrite iter_pos_nat. f_equal. rewrite <- (positive_nat_Z p) at 1. apply iter_shr_exact. assumption.
+Qed.
+
+(* ---- rounding a normalised mantissa times a power of two is exact ---- *)
+Lemma round_exact : forall (M : positive) (E : Z) (m1 n : Z),
+  Zpos M = m1 * 2 ^ n -> 0 <= n -> 0 < m1 -> sz m1 = 53 -> -1074 <= E + n <= 971 ->
+  binary_round_aux prec emax false (Zpos M) E loc_Exact = S754_finite false (Z.to_pos m1) (E + n).
+Proof.
+  intros M E m1 n HM Hn Hm Hs HE.
+  unfold binary_round_aux, shr_fexp. rewrite Zdigits2_sz, HM, sz_mul_pow2, Hs by assumption.
+  unfold fexp, emin, prec, emax. cbn [shr_record_of_loc].
+  replace (Z.max (53 + n + E - 53) (3 - 1024 - 53) - E) with n by lia.
+  fold (rec0 (m1 * 2 ^ n)). rewrite shr_exact by lia.
+  cbn [rec0 shr_m loc_of_shr_record shr_r shr_s round_nearest_even shr_record_of_loc].
+  destruct m1 as [|p1|p1]; try lia. rewrite Zdigits2_sz, Hs.
+  replace (Z.max (53 + (E + n) - 53) (3 - 1024 - 53) - (E + n)) with 0 by lia.
+  cbn [shr shr_m]. destruct (Zle_bool (E + n) (1024 - 53)) eqn:EL.
+  - reflexivity.
+  - apply Z.leb_gt in EL. lia.
+Qed.
+
+(* ---- float64 of a positive integer below 2^53: its normal form ---- *)
+Definition mant (a : Z) : positive := Z.to_pos (a * 2 ^ (53 - sz a)).
+Definition nf (a : Z) : spec_float := S754_finite false (mant a) (sz a - 53).
+
+Lemma norm_int : forall a, 0 < a < 2 ^ 53 -> binary_normalize prec emax a 0 false = nf a.
+Proof.
+  intros a H. destruct a as [|p|p]; try lia. cbn [binary_normalize]. unfold binary_round.
+  pose proof (sz_le (Zpos p) 53 ltac:(lia) ltac:(lia)) as SL. pose proof (sz_pos (Zpos p) ltac:(lia)) as SP.
+  change (Z.pos (digits2_pos p)) with (Zdigits2 (Zpos p)). rewrite Zdigits2_sz.
+  unfold fexp, emin, prec, emax. replace (Z.max (sz (Z.pos p) + 0 - 53) (3 - 1024 - 53)) with (sz (Zpos p) - 53) by lia.
+  unfold shl_align. rewrite Z.sub_0_r.
+  destruct (sz (Z.pos p) - 53) as [|q|q] eqn:ES; try lia;
+    change (binary_round_aux 53 1024) with (binary_round_aux prec emax).
+  - unfold nf, mant. rewrite (round_exact p 0 (Zpos p) 0); try lia.
+    all: try (change (2 ^ 0) with 1; lia).
+    replace (sz (Z.pos p)) with 53 by lia. change (2 ^ (53 - 53)) with 1. rewrite Z.mul_1_r. reflexivity.
+  - assert (PP : 0 < 2 ^ Zpos q) by (apply Z.pow_pos_nonneg; lia).
+    unfold nf, mant. rewrite (round_exact (shift_pos q p) (Z.neg q) (Zpos p * 2 ^ Zpos q) 0); try lia.
+    all: try (rewrite shift_pos_correct, Z.pow_pos_fold; change (2 ^ 0) with 1; lia).
+    all: try (rewrite sz_mul_pow2 by lia; lia).
+    rewrite Z.add_0_r. replace (53 - sz (Z.pos p)) with (Zpos q) by lia. f_equal. lia.
+Qed.
+
+Lemma mant_val : forall a, 0 < a -> sz a <= 53 ->
+  Zpos (mant a) = a * 2 ^ (53 - sz a) /\ sz (Zpos (mant a)) = 53.
+Proof.
+  intros a Ha Hs. unfold mant.
+  assert (P : 0 < a * 2 ^ (53 - sz a)) by (apply Z.mul_pos_pos; [lia|apply Z.pow_pos_nonneg; lia]).
+  rewrite Z2Pos.id by assumption. split; [reflexivity|]. rewrite sz_mul_pow2 by lia. lia.
+Qed.
+
+Lemma mul_nf : forall a b, 0 < a -> 0 < b -> a * b < 2 ^ 53 -> SFmul prec emax (nf a) (nf b) = nf (a * b).
+Proof.
+  intros a b Ha Hb Hab.
+  assert (Pab : 0 < a * b) by (apply Z.mul_pos_pos; assumption).
+  assert (La : sz a <= 53) by (apply sz_le; [assumption|nia]).
+  assert (Lb : sz b <= 53) by (apply sz_le; [assumption|nia]).
+  assert (Lab : sz (a * b) <= 53) by (apply sz_le; assumption).
+  pose proof (sz_mul_ge a b Ha Hb) as G.
+  pose proof (sz_pos a Ha) as Pa. pose proof (sz_pos b Hb) as Pb.
+  destruct (mant_val a Ha La) as [Va _]. destruct (mant_val b Hb Lb) as [Vb _].
+  destruct (mant_val (a * b) Pab Lab) as [Vab Sab].
+  unfold nf at 1 2. cbn [SFmul xorb].
+  rewrite (round_exact (mant a * mant b) _ (Zpos (mant (a * b))) (53 - sz a - sz b + sz (a * b))); try lia.
+  - unfold nf. rewrite Pos2Z.id. f_equal. lia.
+  - rewrite Pos2Z.inj_mul, Va, Vb, Vab.
+    assert (PW : 2 ^ (53 - sz a) * 2 ^ (53 - sz b) = 2 ^ (53 - sz (a * b)) * 2 ^ (53 - sz a - sz b + sz (a * b))).
+    { rewrite <- !Z.pow_add_r by lia. f_equal. lia. }
+    replace (a * 2 ^ (53 - sz a) * (b * 2 ^ (53 - sz b))) with (a * b * (2 ^ (53 - sz a) * 2 ^ (53 - sz b))) by ring.
+    rewrite PW. ring.
+Qed.
+
+Lemma prim_of_int : forall a, 0 < a < 2 ^ 53 -> Prim2SF (of_uint63 (Uint63.of_Z a)) = nf a.
+Proof.
+  intros a H. rewrite of_uint63_spec, Uint63.of_Z_spec.
+  rewrite Z.mod_small by (change Uint63.wB with (2 ^ 63); split; [lia|]; apply Z.lt_trans with (2 ^ 53); [lia|reflexivity]).
+  apply norm_int. assumption.
+Qed.
+
+Lemma trunc_nf : forall x a, 0 < a < 2 ^ 53 -> Prim2SF x = nf a -> trunc_u64 x = a.
+Proof.
+  intros x a H E. unfold trunc_u64. rewrite E. unfold nf.
+  assert (La : sz a <= 53) by (apply sz_le; lia).
+  destruct (mant_val a ltac:(lia) La) as [Va _]. rewrite Va.
+  assert (V : (if 0 <=? sz a - 53 then a * 2 ^ (53 - sz a) * 2 ^ (sz a - 53)
+               else a * 2 ^ (53 - sz a) / 2 ^ (- (sz a - 53))) = a).
+  { destruct (0 <=? sz a - 53) eqn:E0.
+    - replace (sz a) with 53 by lia. change (2 ^ (53 - 53)) with 1. lia.
+    - replace (- (sz a - 53)) with (53 - sz a) by lia. apply Z.div_mul. apply Z.pow_nonzero; lia. }
+  rewrite V. destruct (a <? two64) eqn:EL; [reflexivity|].
+  unfold two64 in EL. assert (2 ^ 53 < 18446744073709551616) by reflexivity. lia.
+Qed.
+
+Lemma float_of_u64_small : forall z, 0 <= z < two63 -> float_of_u64 z = of_uint63 (Uint63.of_Z z).
+Proof. intros z H. unfold float_of_u64. destruct (z <? two63) eqn:E; [reflexivity|lia]. Qed.
+
+Theorem mul_exact : forall a b, 0 < a -> 0 < b -> a * b < 2 ^ 53 ->
+  trunc_u64 (float_of_u64 a * float_of_u64 b)%float = a * b.
+Proof.
+  intros a b Ha Hb Hab.
+  assert (P53 : 2 ^ 53 < two63) by reflexivity.
+  assert (A : a < 2 ^ 53) by nia. assert (B : b < 2 ^ 53) by nia.
+  rewrite !float_of_u64_small by lia.
+  apply trunc_nf; [split; [apply Z.mul_pos_pos; assumption|assumption]|].
+  rewrite mul_spec. unfold SF64mul. rewrite !prim_of_int by lia. apply mul_nf; assumption.
+Qed.
+
+(* the 18 quotients float64(10^p) / scale_k the formatter's texts lead to: evaluated *)
+Lemma quot_pk : forall p k, In (p, k)
+    [(3,1);(3,2);(3,3);(6,1);(6,2);(6,3);(6,4);(6,5);(6,6);
+     (9,1);(9,2);(9,3);(9,4);(9,5);(9,6);(9,7);(9,8);(9,9)]%nat ->
+  (float_of_u64 (10 ^ Z.of_nat p) / fscale_from 1 k)%float = float_of_u64 (10 ^ Z.of_nat (p - k)).
+Proof.
+  intros p k H. cbn [In] in H.
+  repeat (destruct H as [H|H]; [injection H as E1 E2; subst p k; vm_compute; reflexivity|]). contradiction.
+Qed.
+
+Theorem frac_op_float_exact : fop_spec frac_op_float.
+Proof.
+  intros p k f P K F. unfold frac_op_float.
+  assert (IN : In (p, k) [(3,1);(3,2);(3,3);(6,1);(6,2);(6,3);(6,4);(6,5);(6,6);
+                          (9,1);(9,2);(9,3);(9,4);(9,5);(9,6);(9,7);(9,8);(9,9)]%nat).
+  { destruct P as [ -> | [ -> | -> ] ].
+    - assert (C : (k = 1 \/ k = 2 \/ k = 3)%nat) by lia. cbn [In]. intuition (subst; auto 20).
+    - assert (C : (k = 1 \/ k = 2 \/ k = 3 \/ k = 4 \/ k = 5 \/ k = 6)%nat) by lia. cbn [In]. intuition (subst; auto 20).
+    - assert (C : (k = 1 \/ k = 2 \/ k = 3 \/ k = 4 \/ k = 5 \/ k = 6 \/ k = 7 \/ k = 8 \/ k = 9)%nat) by lia.
+      cbn [In]. intuition (subst; auto 30). }
+  rewrite (quot_pk p k IN).
+  assert (PP : 0 < 10 ^ Z.of_nat (p - k)) by apply pow10_pos.
+  assert (E : 10 ^ Z.of_nat k * 10 ^ Z.of_nat (p - k) = 10 ^ Z.of_nat p).
+  { rewrite <- Z.pow_add_r by lia. f_equal. lia. }
+  assert (P9 : 10 ^ Z.of_nat p <= 10 ^ Z.of_nat 9) by (apply Z.pow_le_mono_r; lia).
+  assert (B : 10 ^ Z.of_nat 9 < 2 ^ 53) by reflexivity.
+  apply mul_exact; [lia|assumption|]. nia.
+Qed.
+
+(* ---------- the statements of Props/C20.v ---------- *)
+Lemma units_logg_good : units_good units_logg.
+Proof. constructor; reflexivity. Qed.
+
+Lemma units_logg_nonzero : Forall (fun p : bytes * Z => snd p <> 0) units_logg.
+Proof. apply Forall_forall. intros [k v] H. cbn [snd]. unfold units_logg, Verif.Gen.Tables.t_unitMap in H. cbn [In] in H.
+  repeat (destruct H as [H|H]; [injection H as _ <-; discriminate|]). contradiction. Qed.
+
+Lemma units_std_nonzero : Forall (fun p : bytes * Z => snd p <> 0) units_std.
+Proof.
+  pose proof units_logg_nonzero as H. unfold units_std, without_day. rewrite Forall_forall in *.
+  intros x Hx. apply filter_In in Hx. apply H. tauto.
+Qed.
+
+Lemma bufsize_nonneg : 0 <= Verif.Gen.Tables.t_shortDurBufSize.
+Proof. apply Z.leb_le. vm_compute. reflexivity. Qed.
+
+Theorem total_any : forall B frac d, 33 <= B -> - 2 ^ 63 <= d < 2 ^ 63 -> short_dur B frac d <> Panic.
+Proof. intros B frac d HB H. apply short_dur_total; assumption. Qed.
+
+Lemma min_int_text_length : length (text false (- two63)) = 33%nat.
+Proof. vm_compute. reflexivity. Qed.
+
+Theorem total_iff : forall B, 0 <= B ->
+  ((forall frac d, - 2 ^ 63 <= d < 2 ^ 63 -> short_dur B frac d <> Panic) <-> 33 <= B).
+Proof.
+  intros B HB. split.
+  - intros H. destruct (Z_le_gt_dec 33 B) as [L|G]; [assumption|]. exfalso.
+    apply (H false (- two63)); [split; [reflexivity|reflexivity]|].
+    rewrite short_dur_text by assumption. rewrite min_int_text_length.
+    destruct (Z.of_nat 33 <=? B) eqn:E; [|reflexivity]. apply Z.leb_le in E. change (Z.of_nat 33) with 33 in E. lia.
+  - intros L frac d H. apply total_any; assumption.
+Qed.
+
+Theorem total_current :
+  (33 <= Verif.Gen.Tables.t_shortDurBufSize /\
+     forall frac d, - 2 ^ 63 <= d < 2 ^ 63 -> short_dur Verif.Gen.Tables.t_shortDurBufSize frac d <> Panic)
+  \/ (Verif.Gen.Tables.t_shortDurBufSize < 33 /\
+     exists d, - 2 ^ 63 <= d < 2 ^ 63 /\ short_dur Verif.Gen.Tables.t_shortDurBufSize false d = Panic).
+Proof.
+  destruct (Z_le_gt_dec 33 Verif.Gen.Tables.t_shortDurBufSize) as [L|G].
+  - left. split; [assumption|]. intros frac d H. apply total_any; assumption.
+  - right. split; [lia|]. exists (- two63). split; [split; reflexivity|].
+    rewrite short_dur_text by apply bufsize_nonneg. rewrite min_int_text_length.
+    destruct (Z.of_nat 33 <=? _) eqn:E; [|reflexivity]. apply Z.leb_le in E. change (Z.of_nat 33) with 33 in E. lia.
+Qed.
+
+Theorem roundtrip_any : forall B frac d t, 0 <= B -> - 2 ^ 63 <= d < 2 ^ 63 ->
+  short_dur B frac d = Ok t -> parse_dur units_logg t = Ok d.
+Proof.
+  intros B frac d t HB H E. apply short_dur_ok_text in E; [|assumption]. subst t.
+  unfold parse_dur. apply roundtrip_text; [exact frac_op_float_exact|exact units_logg_good|exact H].
+Qed.
+
+Theorem superset_std : forall s r, parse_dur units_std s = Ok r -> parse_dur units_logg s = Ok r.
+Proof. intros s r. unfold parse_dur, units_std. apply parse_superset. Qed.
+
+Theorem only_day : forall s r, parse_dur units_logg s = Ok r -> parse_dur units_std s = Ok r \/ uses_day_unit s = true.
+Proof. intros s r. unfold parse_dur, units_std. apply parse_only_day. Qed.
+
+Theorem same_decision : forall s, uses_day_unit s = false -> parse_dur units_std s = parse_dur units_logg s.
+Proof. intros s. unfold parse_dur, units_std. apply parse_same_without_day. Qed.
+
+Theorem reject_agreement : forall s, parse_dur units_std s = Err -> parse_dur units_logg s = Err \/ uses_day_unit s = true.
+Proof.
+  intros s H. destruct (uses_day_unit s) eqn:E; [right; reflexivity|left].
+  rewrite <- same_decision; assumption.
+Qed.
+
+Theorem parse_decides : forall s,
+  ((exists r, parse_dur units_logg s = Ok r) \/ parse_dur units_logg s = Err)
+  /\ ((exists r, parse_dur units_std s = Ok r) \/ parse_dur units_std s = Err).
+Proof.
+  intros s. split.
+  - pose proof (parse_no_fuel_out frac_op_float units_logg s) as F.
+    pose proof (parse_no_panic frac_op_float units_logg s units_logg_nonzero) as P.
+    fold (parse_dur units_logg s) in F, P.
+    destruct (parse_dur units_logg s) as [r| | |]; try congruence; [left; exists r; reflexivity|right; reflexivity].
+  - pose proof (parse_no_fuel_out frac_op_float units_std s) as F.
+    pose proof (parse_no_panic frac_op_float units_std s units_std_nonzero) as P.
+    fold (parse_dur units_std s) in F, P.
+    destruct (parse_dur units_std s) as [r| | |]; try congruence; [left; exists r; reflexivity|right; reflexivity].
+Qed.
